@@ -32,7 +32,7 @@ def compact_plan(plan, maxdoc=400):
         o = {k: v for k, v in op.items() if k not in ("recipe", "doc")}
         if "doc" in op:
             d = op["doc"]
-            o["doc"] = d if isinstance(d, str) else {"inline": d["inline"][:maxdoc] + ("…" if len(d["inline"]) > maxdoc else "")}
+            o["doc"] = d if (isinstance(d, str) or "inline" not in d) else {"inline": d["inline"][:maxdoc] + ("…" if len(d["inline"]) > maxdoc else "")}
         if "recipe" in op:
             o["recipe"] = {"langs": [l["lang"] for l in op["recipe"]["langs"]],
                            "captions": [len(l["captions"]) for l in op["recipe"]["langs"]],
